@@ -15,9 +15,10 @@ Parameters (the harness reports the real code's answers; C23 owns their models):
   * `Suppression::isSuppressed(errmsg)`  — the pure None/Checked/Matched verdict of one suppression on one message,
   * `PathMatch::match(s.fileName, file)`, `matchglob(filter, s.errorId)`, `isValidGlobPattern`.
 -/
+import Cppcheck.Model.Wire
 namespace Cppcheck.Unmatched
+open Cppcheck.Wire (Str)
 
-abbrev Str := List Char
 
 inductive SType | unique | file | block | blockBegin | blockEnd | macro
 deriving DecidableEq, Repr
@@ -223,5 +224,20 @@ def stepOp (verdict : Suppr → Msg → Res) (st : State) : Op → State
 
 def runOps (verdict : Suppr → Msg → Res) (st : State) (ops : List Op) : State :=
   ops.foldl (stepOp verdict) st
+
+/-- what `CppCheck::check(file)` does to the list while it analyses one file (lib/cppcheck.cpp): the dummy call with an
+    empty id, the inline suppressions of the file (only with `--inline-suppr`), the token lines of every analysed
+    configuration (`markUnmatchedInlineSuppressionsAsChecked`, also only with `--inline-suppr`), one call per finding -/
+structure FileRun where
+  path : Str
+  inlineSupprs : List Suppr
+  tokenLines : List (Str × Int)
+  findings : List Msg
+deriving Repr
+
+def dummyMsg : Msg := ⟨[], 0⟩
+
+def fileOps (inlineSuppr : Bool) (f : FileRun) : List Op :=
+  [.sup true dummyMsg] ++ (if inlineSuppr then f.inlineSupprs.map .add ++ [.mark f.tokenLines] else []) ++ f.findings.map (.sup true)
 
 end Cppcheck.Unmatched
